@@ -10,5 +10,8 @@ EXPLANATION = CG.EXPL
 ASSUMPTIONS = CG.ASSUME
 RULE = 'one evaluation = one feasible schedule (path) of one scenario family, judged after the settle phase; non-trivial = more than three scheduler steps'
 REQUIRED_CLASSES = ['art source 0', 'art source 1', 'art source 2', 'art source 3']
-BOUNDS = {'quick': 'see instances: scenario families (1-3 callers, single commands and command lists with a failing member, from the idling state / inside the re-idle window / with a request in flight) x 4-5 free scheduler steps x budgets (<= 2 server changes, <= 1 timer expiry, <= 1 cancellation, <= 1 half-line delivery, one fault)',
-          'thorough': 'the same families with 6-7 free steps and three more families'}
+BOUNDS = {'quick': 'Client::album_art for one song against a simulated picture store: picture sizes {0,1,2,3,5} bytes (a fixed byte pattern containing LF) x server chunk limit {1,2,3}; per instance symbolic choices of the source '
+                   '(embedded with/without MIME type, file only with readpicture answering empty, file only with readpicture unknown (ACK 5), nothing anywhere, a different server error 52), '
+                   'and of a subsystem change arriving during the transfer; two instances run a second lookup through a cloned client on the same connection after a lookup that found nothing; '
+                   'reply lines are delivered one at a time, the run loop and the caller are polled to quiescence',
+          'thorough': 'as quick with sizes {0,1,2,3,4,5,7} x limits {1,2,3,4}'}
